@@ -205,9 +205,30 @@ def rejected_parse_first(c):
 exec(REJECTED_SRC)  # noqa: S102
 
 
-def roundtrip_check(p, name, c, after_rejected=False):
-    p.case(("roundtrip", circ.snapshot(c)[:3], after_rejected), sample=f"round trip {name}: {circ.describe(c)}" if len(p.samples) < 8 else None)
+PRINTED_THEN_EDITED = {
+    # the circuit is printed once, edited in place through the public API, and printed again
+    "replace_inputs": "c.format_circuit()\nc.replace_inputs(list(c.inputs)[:1], list(c.inputs)[1:2])\n",
+    "into_bench": "c.format_circuit()\nc.into_bench()\n",
+    "rename_gate": "c.format_circuit()\nc.rename_gate(list(c.gates)[-1], 'renamed_after_printing')\n",
+    "reverse_outputs": "c.format_circuit()\nc.set_outputs(list(c.outputs)[::-1])\n",
+    "reverse_inputs": "c.format_circuit()\nc.order_inputs(list(c.inputs)[::-1])\n",
+}
+
+
+def roundtrip_check(p, name, c, after_rejected=False, history=None):
     src = REPLAY_PRELUDE + "from cirbo.core.circuit import Circuit\nimport tempfile, os\n" + circ.circ_src(c) + "\n" + (REJECTED_SRC + "rejected_parse_first(c)\n" if after_rejected else "")
+    if history is not None:
+        from checks.mutators import rebuild
+
+        c0, c = c, rebuild(c)
+        src += PRINTED_THEN_EDITED[history]
+        try:
+            exec(PRINTED_THEN_EDITED[history], {"c": c})  # noqa: S102
+        except Exception:  # noqa: BLE001
+            return  # the edit itself is not applicable to this circuit
+        if not expressible(c):
+            return
+    p.case(("roundtrip", circ.snapshot(c)[:3], after_rejected, history), sample=f"round trip {name}: {circ.describe(c)}" if len(p.samples) < 8 else None)
     if after_rejected:
         rejected_parse_first(c)  # noqa: F821
     body = ("bad=[]\ntry:\n    d=Circuit.from_bench_string(c.format_circuit())\n"
@@ -233,8 +254,8 @@ def roundtrip_check(p, name, c, after_rejected=False):
         bad = f"{type(ex).__name__}: {ex}"
     if bad:
         kw = [l for l in c.gates if l.upper().startswith(("INPUT", "OUTPUT")) and c.gates[l].gate_type != G.INPUT]
-        p.violation(f"roundtrip:{'keyword-prefixed-label' if kw else bad.split(' ')[0].split(':')[0]}{':after-a-rejected-parse' if after_rejected else ''}",
-                    f"{circ.describe(c)}{' (parsed right after a text that was rejected mid-stream)' if after_rejected else ''}: {bad}", src + body)
+        p.violation(f"roundtrip:{'keyword-prefixed-label' if kw else bad.split(' ')[0].split(':')[0]}{':after-a-rejected-parse' if after_rejected else ''}{':printed-then-' + history if history else ''}",
+                    f"{circ.describe(c)}{' (parsed right after a text that was rejected mid-stream)' if after_rejected else ''}{' (printed once before ' + history + ')' if history else ''}: {bad}", src + body)
 
 
 def layouts(c, rnd, count):
@@ -357,6 +378,9 @@ def family_unit(p, item, tier, seed):
         prev = c
         roundtrip_check(p, name, c)
         roundtrip_check(p, name, c, after_rejected=True)
+        if len(c.gates) < 200:
+            for h in PRINTED_THEN_EDITED:
+                roundtrip_check(p, name + "/printed-then-" + h, c, history=h)
         rc = relabel(c, rnd)
         roundtrip_check(p, name + "/relabelled", rc)
         denotation_check(p, name, c if rnd.random() < 0.5 else rc, rnd, 3 if tier == "quick" else 6)
